@@ -73,6 +73,10 @@ type Replica struct {
 	term  uint64 // last HardState.Term emitted / restored
 	hsCur pb.HardState
 
+	leaderMsgs      int  // MsgApp/MsgHeartbeat/MsgSnap stepped in since the last StepNode
+	removedAsNonLdr bool // applied a RemoveNode in its last Ready while not leader
+	stepConf        pb.ConfState // configuration in effect when the current Ready was produced
+	stepConfKnown   bool
 	persistedCommit uint64
 	readyN          int
 	incarnation     int
@@ -135,6 +139,7 @@ type Sim struct {
 	pendingCase    map[uint64]string
 	snapInstallN   int
 	truncN         int
+	rootCause      string // classifier result appended to C02/C03 signatures
 	check          string // the check whose monitor set reports ("" = all)
 	foreign        map[string]bool
 }
@@ -186,6 +191,14 @@ func (s *Sim) event(format string, a ...interface{}) {
 func (s *Sim) violate(sig string, owners []string, format string, a ...interface{}) {
 	if s.viol != nil {
 		return
+	}
+	if s.rootCause != "" {
+		for _, o := range owners {
+			if o == "C02" || o == "C03" {
+				sig += "/" + s.rootCause
+				break
+			}
+		}
 	}
 	if s.check != "" {
 		mine := false
@@ -419,9 +432,25 @@ func (s *Sim) cycle(r *Replica, crashPos int, mask uint64, onlyAt uint64) {
 		return
 	}
 	r.pendingTicks, r.pendingIn = 0, 0
+	leaderMsgs := r.leaderMsgs
+	r.leaderMsgs = 0
 	if !has {
 		return
 	}
+	// Root-cause classifier (not an oracle): a replica that is not leader and
+	// was told nothing by a leader since its last step can only have moved
+	// its commit index by itself. Seen after ApplyConfChange(RemoveNode):
+	// raft.removeNode calls maybeCommit without checking r.state.
+	if r.removedAsNonLdr && leaderMsgs == 0 && r.role != raft.StateLeader &&
+		!(rd.SoftState != nil && rd.SoftState.RaftState == raft.StateLeader) &&
+		!raft.IsEmptyHardState(rd.HardState) && rd.HardState.Commit > r.hsCur.Commit {
+		if s.rootCause == "" {
+			s.rootCause = "nonleader-commit-on-removenode"
+		}
+		s.count("nonleader_commit_on_removenode", 1)
+		s.event("replica %d (%s, term %d) moved its commit index %d -> %d right after applying a RemoveNode, without any leader message", r.id, r.role, r.term, r.hsCur.Commit, rd.HardState.Commit)
+	}
+	r.removedAsNonLdr = false
 	r.readyN++
 	s.count("readies", 1)
 	if onlyAt != 0 && uint64(r.readyN) != onlyAt {
@@ -430,6 +459,13 @@ func (s *Sim) cycle(r *Replica, crashPos int, mask uint64, onlyAt uint64) {
 	hasSnap := !raft.IsEmptySnap(rd.Snapshot)
 	if rd.MoreCommittedEntries {
 		s.count("more_committed_entries_readies", 1)
+	}
+	// the configuration the raft state machine had when it produced this
+	// Ready: the replica's applied configuration, or the snapshot it restored
+	// during this step (committed conf changes of this Ready come later)
+	r.stepConf, r.stepConfKnown = r.app.conf, r.app.confKnown
+	if hasSnap {
+		r.stepConf, r.stepConfKnown = rd.Snapshot.Metadata.ConfState, true
 	}
 	s.mon.onReady(r, &rd, hasSnap)
 	if s.viol != nil {
@@ -675,6 +711,9 @@ func (s *Sim) applyReady(r *Replica, rd *raft.Ready, hasSnap bool) {
 			s.count("conf_applied/"+cc.Type.String(), 1)
 			if cc.Type == pb.ConfChangeRemoveNode && cc.ReplicaID == r.id {
 				r.selfRemoved = true
+			}
+			if cc.Type == pb.ConfChangeRemoveNode && r.role != raft.StateLeader {
+				r.removedAsNonLdr = true
 			}
 			s.event("replica %d applies conf change %s %d at index %d -> voters=%v learners=%v", r.id, cc.Type, cc.ReplicaID, e.Index, cs.Nodes, cs.Learners)
 		}
